@@ -4,7 +4,7 @@
 static vs::Limits vs_limits(vh::Ctx& ctx)
 {
     vs::Limits l; l.depth = int(ctx.B("depth", 3)); l.subimage_mode = int(ctx.B("subimage", 1)); l.max_sub = int(ctx.B("maxsub", 3));
-    l.conv = ctx.B("conv", 1) != 0; l.chan = ctx.B("chan", 1) != 0; return l;
+    l.conv = ctx.B("conv", 1) != 0; l.chan = ctx.B("chan", 1) != 0; l.probe = ctx.B("probe", 0) != 0; return l;
 }
 #define ORG_GROUP(gname, OrgT) VH_GROUP(gname) { vh::ubsan_counts() = VS_UBSAN; vs::explore_org<OrgT, VS_POLICY>(ctx, ctx.B("N", 3), vs_limits(ctx), int(ctx.B("pads", 2))); }
 #ifndef VS_SET
